@@ -105,7 +105,7 @@ Definition src_nada_dsl_to_nada_mir : list string :=  [
    "FUNCTIONS.clear()"; 
    "SourceRef.reset_refs()"; 
    "operations: Dict[int, Dict] = {}"; 
-   "for output in outputs: ;     timer.start(f'nada_dsl.compiler_frontend.nada_dsl_to_nada_mir.{output.name}.process_operation') ;     out_operation_id = output.child.child.id ;     extra_fns = traverse_and_process_operations(out_operation_id, operations, FUNCTIONS) ;     FUNCTIONS.update(extra_fns) ;     timer.stop(f'nada_dsl.compiler_frontend.nada_dsl_to_nada_mir.{output.name}.process_operation') ;     party = output.party ;     PARTIES[party.name] = party ;     new_outputs.append({'operation_id': out_operation_id, 'name': output.name, 'party': party.name, 'type': AST_OPERATIONS[out_operation_id].ty, 'source_ref_index': output.source_ref.to_index()})"; 
+   "for output in outputs: ;     timer.start(f'nada_dsl.compiler_frontend.nada_dsl_to_nada_mir.{output.name}.process_operation') ;     try: ;         out_operation_id = output.child.child.id ;         extra_fns = traverse_and_process_operations(out_operation_id, operations, FUNCTIONS) ;         FUNCTIONS.update(extra_fns) ;     finally: ;         timer.stop(f'nada_dsl.compiler_frontend.nada_dsl_to_nada_mir.{output.name}.process_operation') ;     party = output.party ;     PARTIES[party.name] = party ;     new_outputs.append({'operation_id': out_operation_id, 'name': output.name, 'party': party.name, 'type': AST_OPERATIONS[out_operation_id].ty, 'source_ref_index': output.source_ref.to_index()})"; 
    "return {'functions': to_mir_function_list(FUNCTIONS), 'parties': to_party_list(PARTIES), 'inputs': to_input_list(INPUTS), 'literals': to_literal_list(LITERALS), 'outputs': new_outputs, 'operations': operations, 'source_files': SourceRef.get_sources(), 'source_refs': SourceRef.get_refs()}"].
 
 Definition src_to_party_list : list string :=  [
@@ -421,12 +421,12 @@ Definition sr_sources_filtered : bool := true.
 Definition sr_cache_checks_path : bool := true.
 Definition bf_rest : list string := ["lineno = backend_frame.f_lineno"; "offset, length = SourceRef.try_get_line_info(backend_frame, lineno)"; "return cls(lineno=lineno, offset=offset, file=os.path.basename(backend_frame.f_code.co_filename), length=length)"].
 
-Definition li_split : string := "src.splitlines()".
+Definition li_split : string := "src.split('\n')".
 Definition li_guard_le : bool := true.
 Definition li_range_minus : Z := (1)%Z.
 Definition li_plus : Z := (1)%Z.
 Definition li_index_minus : Z := (1)%Z.
-Definition li_pre : list string := ["if _in_package(backend_frame.f_code.co_filename): ;     return (0, 0)"; "path = backend_frame.f_code.co_filename"; "filename = os.path.basename(path)"; "src = None"; "try: ;     if filename not in USED_SOURCES or _SOURCE_PATHS.get(filename) != path: ;         with open(path, encoding='utf-8') as file: ;             src = file.read() ;         USED_SOURCES[filename] = src ;         _SOURCE_PATHS[filename] = path ;     else: ;         src = USED_SOURCES[filename] ; except OSError: ;     return (0, 0)"].
+Definition li_pre : list string := ["if _in_package(backend_frame.f_code.co_filename): ;     return (0, 0)"; "path = backend_frame.f_code.co_filename"; "filename = os.path.basename(path)"; "src = None"; "try: ;     stat = os.stat(path) ;     stamp = (path, stat.st_mtime_ns, stat.st_size) ;     if filename not in USED_SOURCES or _SOURCE_PATHS.get(filename) != stamp: ;         with open(path, encoding='utf-8') as file: ;             src = file.read() ;         USED_SOURCES[filename] = src ;         _SOURCE_PATHS[filename] = stamp ;     else: ;         src = USED_SOURCES[filename] ; except OSError: ;     return (0, 0)"].
 Definition li_tail : list string := ["return (0, 0)"].
 
 Definition back_frame_sites : list (string * string * Z) :=  [("nada_dsl/nada_types/__init__.py", "__init__", (1)%Z); ("nada_dsl/nada_types/collections.py", "__getattr__", (1)%Z); ("nada_dsl/nada_types/collections.py", "__getitem__", (1)%Z); ("nada_dsl/nada_types/collections.py", "inner_product", (1)%Z); ("nada_dsl/nada_types/collections.py", "map", (1)%Z); ("nada_dsl/nada_types/collections.py", "new", (1)%Z); ("nada_dsl/nada_types/collections.py", "new", (1)%Z); ("nada_dsl/nada_types/collections.py", "new", (1)%Z); ("nada_dsl/nada_types/collections.py", "new", (1)%Z); ("nada_dsl/nada_types/collections.py", "reduce", (1)%Z); ("nada_dsl/nada_types/collections.py", "unzip", (1)%Z); ("nada_dsl/nada_types/collections.py", "zip", (1)%Z); ("nada_dsl/nada_types/function.py", "__call__", (1)%Z); ("nada_dsl/nada_types/function.py", "nada_fn", (1)%Z); ("nada_dsl/nada_types/function.py", "nada_fn", (1)%Z); ("nada_dsl/nada_types/scalar_types.py", "__init__", (1)%Z); ("nada_dsl/nada_types/scalar_types.py", "__init__", (1)%Z); ("nada_dsl/nada_types/scalar_types.py", "__init__", (1)%Z); ("nada_dsl/nada_types/scalar_types.py", "__invert__", (1)%Z); ("nada_dsl/nada_types/scalar_types.py", "__invert__", (1)%Z); ("nada_dsl/nada_types/scalar_types.py", "__pow__", (1)%Z); ("nada_dsl/nada_types/scalar_types.py", "binary_arithmetic_operation", (2)%Z); ("nada_dsl/nada_types/scalar_types.py", "binary_logical_operation", (2)%Z); ("nada_dsl/nada_types/scalar_types.py", "binary_logical_operation", (2)%Z); ("nada_dsl/nada_types/scalar_types.py", "binary_relational_operation", (2)%Z); ("nada_dsl/nada_types/scalar_types.py", "ecdsa_sign", (1)%Z); ("nada_dsl/nada_types/scalar_types.py", "equals_operation", (2)%Z); ("nada_dsl/nada_types/scalar_types.py", "equals_operation", (2)%Z); ("nada_dsl/nada_types/scalar_types.py", "if_else", (1)%Z); ("nada_dsl/nada_types/scalar_types.py", "public_equals_operation", (2)%Z); ("nada_dsl/nada_types/scalar_types.py", "random", (1)%Z); ("nada_dsl/nada_types/scalar_types.py", "random", (1)%Z); ("nada_dsl/nada_types/scalar_types.py", "random", (1)%Z); ("nada_dsl/nada_types/scalar_types.py", "shift_operation", (2)%Z); ("nada_dsl/nada_types/scalar_types.py", "to_public", (1)%Z); ("nada_dsl/nada_types/scalar_types.py", "to_public", (1)%Z); ("nada_dsl/nada_types/scalar_types.py", "to_public", (1)%Z); ("nada_dsl/nada_types/scalar_types.py", "trunc_pr", (1)%Z); ("nada_dsl/nada_types/scalar_types.py", "trunc_pr", (1)%Z); ("nada_dsl/nada_types/scalar_types.py", "trunc_pr", (1)%Z); ("nada_dsl/nada_types/scalar_types.py", "trunc_pr", (1)%Z); ("nada_dsl/program_io.py", "__init__", (1)%Z); ("nada_dsl/program_io.py", "__init__", (1)%Z)].
